@@ -188,6 +188,7 @@ class Engine:
 # ---------------------------------------------------------------- exploration
 _FN = None
 _ENGINE_KW = {}
+TIME_SLICE = 0.4
 TRACE_ROOT = os.path.join(os.environ.get("SXV_REPO", "/repo"), "auditok") + os.sep
 
 
@@ -220,12 +221,13 @@ def _arm(seconds):
 
 def _run_subtree(args):
     prefix, chunk = args
+    t_start = time.time()
     fn = _FN
     e = Engine(**_ENGINE_KW)
     stack = [prefix]
     results = []
     npaths = 0
-    while stack and npaths < chunk:
+    while stack and npaths < chunk and (npaths == 0 or time.time() - t_start < TIME_SLICE):
         p = stack.pop()
         e.start_path(p)
         tracer = None
